@@ -57,6 +57,20 @@ PROPS = {
         assumptions=["black-box: scenario program compiled against /repo with `replace`, executed with an explicit minimal environment", "UPDATE_SNAPS and CI are read by the real init code of the process"],
         stages=[dict(name="table", engine="bb", run="^TestC05_", quick=1, thorough=1, shards_quick=8, shards_thorough=16)],
     ),
+    "C06": dict(
+        rule="schedules: package snaps is rebuilt with a yield before every statement and cooperative mutexes; a case = concurrent scenario (2-4 tests with distinct, prefix-related names sharing one file, 1-3 calls each of "
+             "{create, match, mismatch without update, update}, foreign pre-existing entries, shuffled initial order) x schedule (0-3 preemptions at yields placed with weight on file-system/lock statements, tie-break choices). "
+             "exhaustive stage: every schedule with <= 2 preemptions of fixed two-task scenarios (1 scenario quick, 4 thorough). Oracle: every call gets its serial outcome; the final file parses, keeps the initial entries in order with "
+             "updated bodies, holds exactly one entry per created slot; no deadlock. race stage: generated goroutine mixes of the five APIs, Skip* and one shared Config under the race detector. "
+             "non-trivial = >= 1 preemption and >= 2 writing tasks (schedules); >= 2 APIs (race); distinct = distinct canonical JSON",
+        assumptions=["file operations between two yields are atomic (statement granularity); kernel-level partial writes are out of reach", "exhaustive only up to two preemptions on small scenarios",
+                     "a race report is always a real race; absence is limited to executed accesses"],
+        stages=[
+            dict(name="exhaustive", engine="sched", run="^TestC06_Exhaustive2$", quick=1, thorough=1, shards_quick=8, shards_thorough=16),
+            dict(name="schedules", engine="sched", run="^TestC06_Schedules$", quick=400, thorough=4000, shards_quick=4, shards_thorough=16),
+            dict(name="race", engine="race", run="^TestC06Race_", quick=100, thorough=1500, shards_quick=2, shards_thorough=8, expect_race_free=True),
+        ],
+    ),
     "C07": dict(
         rule="case = test program (1-5 tests/subtests, 0-12 calls each over all five APIs and 1-3 configs incl. custom Filename/Ext/second dir), -count 1-3, -run in {empty, Test, ^Test, exact alternation, .}, "
              "pre-existing directory from a recording run plus stale entries at random positions, stale files, unrelated files, sub-directories; some slots are first added in the run itself; "
